@@ -136,6 +136,8 @@ impl Xorshift64 {
     /// # Panics
     ///
     /// If `seed` equals 0.
+    #[cfg_attr(kani, kani::requires(seed != 0))]
+    #[cfg_attr(kani, kani::ensures(|r: &Self| r.0 == seed))]
     pub fn from_seed(seed: u64) -> Self {
         assert_ne!(seed, 0, "xorshift seed cannot be zero");
         Self(seed)
